@@ -344,4 +344,21 @@ PROPS = {
         trusted_base=[],
         technique="bounded run-time stand-in (reference/definition sequences vs a numbering model) - no contract discharged yet",
     ),
+    "C12": dict(
+        level="exploration",
+        contracts=[],
+        harness=True,
+        explanation=(
+            "The decisive clause - the resolved URI is correct relative to the referencing page at any directory depth - is "
+            "computed by Sphinx (relfn2path, path2doc, get_relative_uri, make_refnode); no contract on MyST code can decide "
+            "it (DESIGN §11).  What is offered is BOUNDED: generated Sphinx projects with documents at depth 0-3 (including a "
+            "page that has a same-named sibling directory) and links in every spelling (relative, project-absolute, with "
+            "heading anchors, extension-less, to non-document files, unresolvable): href in the written HTML vs the expected "
+            "relative URI, link text (explicit or the target's title), download links, exactly one myst.xref_missing warning "
+            "naming an unresolvable destination with the text still rendered."
+        ),
+        assumptions=["Sphinx 8.2.3 URI computation and HTML writer"],
+        trusted_base=[],
+        technique="bounded run-time stand-in (generated Sphinx projects) - contract-based verification cannot decide the URI clause",
+    ),
 }
